@@ -10,7 +10,7 @@
    attribute list (a fold that appends) and the wrapping in withDirectives; both covered by
    the oracle. *)
 From VJ Require Import Model.Str Model.Json Model.Ast Model.State Model.Util Model.Directive
-  Model.Lower Spec.JsxText Spec.OutViews Spec.Site Spec.SiteCheck Lemmas.SiteProofs.
+  Model.Lower Spec.JsxText Spec.OutViews Spec.Site Spec.SiteCheck Lemmas.SiteProofs Lemmas.DirsProofs.
 
 Definition C04_full_statement : Prop :=
   forall E el s, filter (starts_with (s_ "C04:")) (check_site E 40 el (fst (lower_el E el s))) = [].
@@ -58,6 +58,30 @@ Theorem C04_modifiers_partial : forall ms q,
   view_mods (match transform_modifiers ms q with Some m => m | None => Null end) = ms.
 Proof. exact view_mods_transform. Qed.
 Print Assumptions C04_modifiers_partial.
+
+(* the element as a whole: the bindings handed to withDirectives are, in order, exactly the
+   bindings the attributes denote - for every attribute list (v-models already spliced, see
+   C05_vmodels_sequence) whose attributes each satisfy their own refinement ([dir_ok]: proved for
+   plain attributes, spreads, transformOn objects, runtime directives, v-html / v-text and
+   v-model by the lemmas dir_ok_* of Lemmas/DirsProofs.v) *)
+Theorem C04_element_bindings : forall E ic tag attrs s,
+  splice_vmodels attrs false = attrs ->
+  Forall (dir_ok E ic tag attrs) attrs ->
+  forall s1,
+    map view_dir (fst (build_directives (r_dirs (transform_attrs E attrs ic s)) tag attrs s1))
+    = map Some (snd (fst (spec_attrs E ic tag attrs))).
+Proof. exact directives_refine. Qed.
+Print Assumptions C04_element_bindings.
+
+Theorem C04_directive_attribute_ok : forall E ic tag attrs name value d,
+  spec_directive_name name = Some d ->
+  sq "html" (dn_name d) = false -> sq "text" (dn_name d) = false ->
+  sq "model" (dn_name d) = false -> sq "slots" (dn_name d) = false ->
+  arg_not_void (dp_arg (spec_directive_parts d value)) ->
+  match name with IdName _ | JNs (IdName _) (IdName _) => True | _ => False end ->
+  dir_ok E ic tag attrs (JAttr name value).
+Proof. exact dir_ok_normal. Qed.
+Print Assumptions C04_directive_attribute_ok.
 
 (* non-vacuity: `v-xxx:foo={[x, y, ['a', 'b']]}` - the namespace argument wins, the list is read *)
 Example C04_nonvacuous :
